@@ -263,6 +263,11 @@ impl DifficultyValues {
         n_diff_objects: &mut usize,
         mods: &GameMods,
     ) -> TaikoDifficultyObjects {
+        // Passing every hit means passing the whole map, including any drum
+        // rolls and swells after the last hit.
+        let total_hits = converted.hit_objects.iter().filter(|h| h.is_circle()).count();
+        let take = if take as usize >= total_hits { u32::MAX } else { take };
+
         let mut hit_objects_iter = converted
             .hit_objects
             .iter()
